@@ -479,6 +479,16 @@ def main(tier, seed):
     probes = PROBES
     for a, b, kinds in probes:
         style_cases.append({'i': -1, 'j': 0, 'kinds': kinds, 'a': a, 'b': b})
+    # with debug info (statement map used by RESUME): the error-recovery probes, the probes and some generated pairs
+    ndbg = 0
+    for c in list(style_cases):
+        if c['i'] < 0 or (c['i'] + c['j']) % (8 if quick else 2) == 0:
+            d = dict(c)
+            d['debug'] = True
+            style_cases.append(d)
+            ndbg += 1
+    for a, b, kinds in DBG_PROBES:
+        style_cases.append({'i': -1, 'j': 0, 'kinds': kinds, 'a': a, 'b': b, 'debug': True})
 
     # ---- suite canon
     step = 10 if quick else 2
@@ -514,15 +524,18 @@ def main(tier, seed):
 
     # ---- suite style (structural rewritings of generated programs + probes)
     if want('style'):
-        cases = [{'a': c['a'], 'b': c['b'], 'levels': LEVELS, 'want_trace': True, 'max_ticks': 20000}
-                 for c in style_cases]
+        cases = [{'a': c['a'], 'b': c['b'], 'levels': LEVELS, 'want_trace': True, 'max_ticks': 20000,
+                  'debug': bool(c.get('debug'))} for c in style_cases]
         res = vlib.run_impl('lexfn.compare', cases, timeout=TIMEOUT)
         if not worker_failed(ctx, 'style', res):
             for c, r in zip(style_cases, res):
                 for k in c['kinds']:
                     ctx.bump('style:' + k)
                 names = any(k in ('label-rename', 'lineno-renumber') for k in c['kinds'])
-                judge_pair(ctx, 'style', 'style', c['kinds'], c['a'], c['b'], r, names_only_ok=names)
+                judge_pair(ctx, 'style-debug' if c.get('debug') else 'style', 'style-debug' if c.get('debug') else 'style', c['kinds'], c['a'], c['b'], r,
+                           names_only_ok=names)
+                if c.get('debug'):
+                    ctx.bump('style:with-debug-info')
                 if r[0]['va'] != 'ok':
                     ctx.report('C14/generator-produced-rejected-program',
                                {'suite': 'style', 'a': c['a'], 'verdict': r[0]['va']}, False)
@@ -530,7 +543,7 @@ def main(tier, seed):
             ctx.sample({'suite': 'style', 'kinds': style_cases[1]['kinds'], 'a': style_cases[1]['a'][:400],
                         'b': style_cases[1]['b'][:400]})
         # model side for the proved style kinds: same canon
-        pv = [c for c in style_cases if c['kinds'] and set(c['kinds']) <= STYLE_PROVED]
+        pv = [c for c in style_cases if c['kinds'] and set(c['kinds']) <= STYLE_PROVED and not c.get('debug')]
         mo = vlib.run_model(exe, [[1, c['a']] for c in pv] + [[1, c['b']] for c in pv])
         if not model_failed(ctx, 'style-canon', mo):
             for c, x, y in zip(pv, mo[:len(pv)], mo[len(pv):]):
@@ -684,6 +697,18 @@ def main(tier, seed):
 
 
 PROBES = [
+    # identifiers, labels and SUB names that BEGIN like a keyword (rem, data, end, print, for,
+    # next, if, to, step, let, call): with and without LET / colon / CALL in front
+    ('remaining% = 3\nremainder% = remaining% - 1\nPRINT remaining%; remainder%\ndatax% = 4\nendval% = 5\n'
+     'printer$ = "p"\nforx% = 6\nnextval% = 7\nifa% = 8\ntox% = 9\nstepper% = 10\nletter$ = "l"\n'
+     'PRINT datax%; endval%; printer$; forx%; nextval%; ifa%; tox%; stepper%; letter$\n',
+     'LET remaining% = 3: LET remainder% = remaining% - 1\nPRINT remaining%; remainder%: datax% = 4: endval% = 5\n'
+     'LET printer$ = "p": forx% = 6: nextval% = 7: ifa% = 8\nLET tox% = 9: stepper% = 10: letter$ = "l"\n'
+     'PRINT datax%; endval%; printer$; forx%; nextval%; ifa%; tox%; stepper%; letter$\n',
+     ['let', 'colon-join']),
+    ('GOTO remote\nPRINT "skipped"\nremote:\nremark\nPRINT "done"\nEND\nSUB remark\nPRINT "in sub"\nEND SUB\n',
+     'goto REMOTE\nprint "skipped"\nREMOTE: CALL Remark\nprint "done": end\nsub REMARK\nprint "in sub"\nend sub\n',
+     ['case-kw', 'case-id', 'call-form', 'colon-join']),
     ('TYPE Foo\nbar AS INTEGER\nEND TYPE\nDIM v AS Foo\nv.bar = 1\nPRINT v.bar\n',
      'type FOO\n  BAR as integer\nend type\ndim V as foo\nV . Bar=1\nprint v.BAR\n', ['case-kw', 'case-id', 'blank-add']),
     ('DECLARE SUB Foo (a%)\nx% = 1\nFoo x%\nPRINT x%\nSUB Foo (a%)\na% = 2\nEND SUB\n',
@@ -709,13 +734,35 @@ PROBES = [
 ]
 
 
+# error recovery needs the statement map of the debug info: the same program one statement per
+# line and colon-joined (and respelled) must recover at the same statement
+DBG_PROBES = [
+    ('ON ERROR GOTO h\nz% = 0\nPRINT "a"\nx% = 1 \\ z%\nPRINT "b"\nPRINT "c"\nEND\nh:\nPRINT "H"; ERR\nRESUME NEXT\n',
+     'on error goto H\nZ%=0\nprint "a":x%=1\\z%:print "b":print "c"\nend\nH: print "H";err:resume next\n',
+     ['colon-join', 'case-kw', 'case-id', 'blank-remove']),
+    ('ON ERROR RESUME NEXT\nz% = 0\nPRINT "a"\nx% = 1 \\ z%\nPRINT "b"\ny% = 2 \\ z%\nPRINT "c"\n',
+     'ON ERROR RESUME NEXT: z% = 0\nPRINT "a": x% = 1 \\ z%: PRINT "b": y% = 2 \\ z%: PRINT "c"\n',
+     ['colon-join']),
+    ('ON ERROR GOTO h\nz% = 0\nPRINT "a"\nPRINT 1 \\ z%\nPRINT "b"\nEND\nh:\nz% = 1\nRESUME\n',
+     'ON ERROR GOTO h\nz% = 0: PRINT "a": PRINT 1 \\ z%: PRINT "b": END\nh: LET z% = 1: RESUME\n',
+     ['colon-join', 'let']),
+    ('ON ERROR GOTO h\nDIM a%(2)\ni% = 5\nFOR k% = 1 TO 2\nPRINT k%\na%(i%) = 1\nPRINT "in"\nNEXT k%\nEND\nh:\nRESUME NEXT\n',
+     'ON ERROR GOTO h: DIM a%(2): i% = 5\nFOR k% = 1 TO 2: PRINT k%: a%(i%) = 1: PRINT "in": NEXT\nEND\nh: RESUME NEXT \' go on\n',
+     ['colon-join', 'next-var', 'comment-eol']),
+    ('ON ERROR GOTO h\nz% = 0\nIF z% = 0 THEN\nPRINT "t"\nx% = 1 \\ z%\nPRINT "u"\nEND IF\nPRINT "end"\nEND\nh:\nRESUME NEXT\n',
+     'ON ERROR GOTO h: z% = 0\nIF z% = 0 THEN\n  PRINT "t": x% = 1 \\ z%: PRINT "u"\nEND IF: PRINT "end": END\nh: RESUME NEXT\n',
+     ['colon-join', 'indent']),
+]
+
+
 def replay(path):
     d = json.load(open(path))
     det = d.get('first') or {}
     print(json.dumps({k: d.get(k) for k in ('property', 'signature', 'count', 'tier', 'seed')}, indent=1))
     if 'a' in det and 'b' in det:
         res = vlib.run_impl('lexfn.compare', [{'a': det['a'], 'b': det['b'], 'levels': LEVELS,
-                                               'want_trace': True}])[0]
+                                               'want_trace': True,
+                                               'debug': det.get('suite') == 'style-debug'}])[0]
         print('--- text a'); print(det['a']); print('--- text b'); print(det['b'])
         print(json.dumps(res, indent=1)[:3000])
         bad = any(lv['va'] != lv['vb'] or lv['diff'] or lv['trace_same'] is False for lv in res)
